@@ -6,7 +6,8 @@
      src/cff/outline.rs           CharStringParser as CharStringVisitor (dispatch comes from Gen),
                                   Builder (bbox), parse_char_string, CFF / CFF2Outlines visit
      src/cff/cff2.rs              blend, BlendOperand for f32 (src/cff.rs)
-     src/cff.rs                   Font::seac_code_to_glyph_id, Charset::sid_to_gid (format 0)
+     src/cff.rs                   Font::seac_code_to_glyph_id, Charset::sid_to_gid, CustomCharset::sid_to_gid
+                                  (format 0) and glyph_id_for_sid_in_ranges (formats 1 and 2)
    Numbers.  The implementation computes in f32.  The model computes with exact rationals whose
    denominator divides UNIT = 2^48, represented by their numerator (a Z): an integer operand n is
    n*UNIT, a 16.16 operand with raw i32 value r is r*2^32, a blend scalar is a multiple of 2^-32.
@@ -319,8 +320,13 @@ Definition pvisit (f : pfn) (p : pst) (a : list Z) : pres :=
 
 (* ---------- fonts ---------- *)
 Inductive fontkind : Type := KCFF | KCFF2.
-(* Charset: the custom form is format 0 (the SIDs of glyphs 1..) *)
-Inductive charset : Type := CsISOAdobe | CsExpert | CsCustom (sids : list Z).
+(* Charset: predefined (ISOAdobe, Expert, ExpertSubset) or custom -- format 0 (the SIDs of glyphs
+   1..) or format 1 / 2 (ranges (first, nLeft): nLeft is a u8 in format 1 and a u16 in format 2; both
+   go through the same generic functions, which widen it to u16 / u32) *)
+Inductive charset : Type :=
+| CsISOAdobe | CsExpert | CsExpertSubset
+| CsCustom (sids : list Z)
+| CsRanges (ranges : list (Z * Z)).
 
 Record env : Type := mkEnv {
   e_mode : mode;
@@ -360,18 +366,47 @@ Fixpoint position (x : Z) (l : list Z) (i : Z) : option Z :=
   | y :: r => if y =? x then Some i else position x r (i + 1)
   end.
 
+(* u16 arithmetic: overflow panics in a debug build and wraps in a release build *)
+Definition U16 : Z := 65536.
+Definition add_u16 (m : mode) (a b : Z) : cres Z :=
+  if a + b <? U16 then COk (a + b) else match m with Debug => CPanic | Release => COk ((a + b) mod U16) end.
+
+(* CustomCharset::glyph_id_for_sid_in_ranges (formats 1 and 2): `glyph_id` is a u16 counter that
+   starts at CHARSET_FIRST_GID; the hit test, the index inside the range and the number of glyphs a
+   range covers are regenerated from the source (Gen/Type2Consts.v) *)
+Fixpoint gid_for_sid_in_ranges (m : mode) (ranges : list (Z * Z)) (sid gid : Z) : cres (option Z) :=
+  match ranges with
+  | [] => COk None
+  | (first, n_left) :: r =>
+    if charset_range_hit first n_left sid then
+      g <~ add_u16 m gid (charset_range_index first sid) ;; COk (Some g)
+    else
+      n <~ add_u16 m 0 (charset_range_skip n_left) ;;
+      g <~ add_u16 m gid n ;;
+      gid_for_sid_in_ranges m r sid g
+  end.
+
+(* Charset::sid_to_gid / CustomCharset::sid_to_gid *)
+Definition charset_sid_to_gid (m : mode) (cs : charset) (sid : Z) : cres (option Z) :=
+  if sid =? 0 then COk (Some 0) else
+  match cs with
+  | CsISOAdobe | CsExpert | CsExpertSubset => COk None
+  | CsCustom sids =>
+    (* position(..).and_then(|n| u16::try_from(n + 1).ok()) *)
+    COk (match position sid sids 1 with
+         | Some g => if g <=? 65535 then Some g else None
+         | None => None
+         end)
+  | CsRanges ranges => gid_for_sid_in_ranges m ranges sid CHARSET_FIRST_GID
+  end.
+
 (* Font::seac_code_to_glyph_id *)
-Definition seac_code_to_gid (e : env) (code : Z) : option Z :=
+Definition seac_code_to_gid (e : env) (code : Z) : cres (option Z) :=
   let sid := nthZ STANDARD_ENCODING code in
   match e_charset e with
-  | CsISOAdobe => if code <=? ISO_ADOBE_MAX_CODE then Some sid else None
-  | CsExpert => None
-  | CsCustom sids =>
-    if sid =? 0 then Some 0 else
-    match position sid sids 1 with
-    | Some g => if g <=? 65535 then Some g else None
-    | None => None
-    end
+  | CsISOAdobe => COk (if seac_iso_adobe_ok code sid then Some sid else None)
+  | CsExpert | CsExpertSubset => COk None
+  | cs => charset_sid_to_gid (e_mode e) cs sid
   end.
 
 (* ---------- cff.rs Index::read_object (INDEX offsets are 1-based; data_array has offsets[count]-1 bytes) ----------
@@ -631,18 +666,20 @@ Definition step_escape (r : list Z) (s : ist) : cres ist :=
     else CErr EUnsupportedOperator
   end.
 
-Definition seac_gid (v : Z) : option Z :=
-  match try_as_u8 v with Some c => seac_code_to_gid e c | None => None end.
+Definition seac_gid (v : Z) : cres (option Z) :=
+  match try_as_u8 v with Some c => seac_code_to_gid e c | None => COk None end.
 
 (* the `Process 'seac'` block *)
 Definition step_seac (s : ist) : cres ist :=
   if depth =? STACK_LIMIT then CErr ENestingLimitReached else
   '(av, s1) <~ pop s ;;
-  match seac_gid av with
+  oa <~ seac_gid av ;;
+  match oa with
   | None => CErr EInvalidSeacCode
   | Some accent =>
   '(bv, s1) <~ pop s1 ;;
-  match seac_gid bv with
+  ob <~ seac_gid bv ;;
+  match ob with
   | None => CErr EInvalidSeacCode
   | Some base =>
   '(dy, s1) <~ pop s1 ;;
